@@ -658,6 +658,7 @@ func (p *protocolV2) SUB(client *clientV2, params [][]byte) ([]byte, error) {
 
 		if (channel.ephemeral && channel.Exiting()) || (topic.ephemeral && topic.Exiting()) {
 			channel.RemoveClient(client.ID)
+			verifPoint("sub:retry")
 			if i < 2 {
 				time.Sleep(100 * time.Millisecond)
 				continue
@@ -732,6 +733,7 @@ func (p *protocolV2) FIN(client *clientV2, params [][]byte) ([]byte, error) {
 			fmt.Sprintf("FIN %s failed %s", *id, err.Error()))
 	}
 
+	verifPoint("fin:between-channel-and-client")
 	client.FinishedMessage()
 
 	return nil, nil
